@@ -862,3 +862,115 @@ Proof.
     apply (sub_pool_agrees p); assumption.
   - apply Inv_add_core; assumption.
 Qed.
+
+(** ---------- histories ---------- *)
+
+(** "hash determines content" and uint64 nonces, for the transactions a history adds *)
+Definition hist_ok (ops : list pop) : Prop :=
+  (forall t t', In t (added_txs ops) -> In t' (added_txs ops) -> hash t = hash t' -> t = t') /\
+  (forall t, In t (added_txs ops) -> tx_wf t).
+
+Definition lookup_sub (q p : pool) : Prop := forall h x, alookup (byHash q) h = Some x -> alookup (byHash p) h = Some x.
+
+Lemma lookup_sub_remove_bulk p hs : BH p -> lookup_sub (byhash_remove_bulk p hs) p.
+Proof.
+  intros HB h x. destruct (BH_remove_bulk p hs HB) as (_ & _ & _ & C4). rewrite C4.
+  destruct (existsb _ hs); [discriminate|auto].
+Qed.
+
+Lemma add_core_lookup cfg p t h x : BH p ->
+  alookup (byHash (fst (add_core cfg p t))) h = Some x -> x = t \/ alookup (byHash p) h = Some x.
+Proof.
+  intros HB. unfold add_core. destruct (BH_add p t HB) as (A1 & A2 & A3 & A4 & A5).
+  destruct (byhash_add p t) as (p1, addedH). simpl in A1, A4.
+  assert (H1 : forall h x, alookup (byHash p1) h = Some x -> x = t \/ alookup (byHash p) h = Some x).
+  { intros h0 x0. rewrite A4. destruct (alookup (byHash p) (hash t)); [auto|]. destruct (beqb (hash t) h0); [intros E; inversion E; auto|auto]. }
+  cbv beta iota.
+  set (p2sl := match alookup (senders p1) (sender t) with
+               | Some sl => (p1, sl)
+               | None => (set_senders p1 (senders p1 ++ [(sender t, empty_slist)]) (cntSenders p1 + 1), empty_slist)
+               end).
+  assert (E2 : byHash (fst p2sl) = byHash p1 /\ cntTx (fst p2sl) = cntTx p1 /\ numBytes (fst p2sl) = numBytes p1).
+  { unfold p2sl. destruct (alookup (senders p1) (sender t)); simpl; auto. }
+  destruct p2sl as (p2, sl). simpl in E2. destruct E2 as (E2a & E2b & E2c).
+  destruct (sl_add cfg sl t) as ((sl', addedS), ev). cbv zeta.
+  set (p3 := set_senders p2 (aset (senders p2) (sender t) sl') (cntSenders p2)).
+  assert (HB3 : BH p3) by (eapply BH_congr; [| | |exact A1]; unfold p3; simpl; assumption).
+  destruct ev as [|e ev]; cbn [fst].
+  - unfold p3; simpl. rewrite E2a. apply H1.
+  - destruct (remove_sender_if_empty_byHash p3 (sender t)) as (R1 & R2 & R3).
+    assert (HB4 : BH (remove_sender_if_empty p3 (sender t))) by (eapply BH_congr; eauto).
+    intros Hl. apply (lookup_sub_remove_bulk _ _ HB4) in Hl. rewrite R1 in Hl. unfold p3 in Hl; simpl in Hl.
+    rewrite E2a in Hl. apply H1. exact Hl.
+Qed.
+
+Lemma remove_tx_lookup p h : BH p -> lookup_sub (fst (remove_tx p h)) p.
+Proof.
+  intros HB. unfold remove_tx. destruct (BH_remove p h HB) as (B1 & B2 & B3 & B4 & B5).
+  destruct (byhash_remove p h) as (p1, ot). simpl in *. subst ot.
+  assert (H1 : lookup_sub p1 p). { intros h0 x0. rewrite B4. destruct (beqb h h0); [discriminate|auto]. }
+  destruct (alookup (byHash p) h) as [t|]; [|intros h0 x0 H; exact H].
+  destruct (alookup (senders p1) (sender t)) as [sl|]; [|exact H1].
+  destruct (sl_remove_leq sl (nonce t)) as (sl', ev). cbn [fst].
+  set (p3 := remove_sender_if_empty (set_senders p1 (aset (senders p1) (sender t) sl') (cntSenders p1)) (sender t)).
+  destruct (remove_sender_if_empty_byHash (set_senders p1 (aset (senders p1) (sender t) sl') (cntSenders p1)) (sender t)) as (R1 & R2 & R3).
+  assert (HB3 : BH p3) by (eapply BH_congr; [exact R1|exact R2|exact R3|]; eapply BH_congr; [| | |exact B1]; reflexivity).
+  destruct ev as [|e ev].
+  - intros h0 x0 Hl. unfold p3 in Hl. rewrite R1 in Hl. simpl in Hl. apply H1. exact Hl.
+  - intros h0 x0 Hl. apply (lookup_sub_remove_bulk _ _ HB3) in Hl. unfold p3 in Hl. rewrite R1 in Hl. simpl in Hl. apply H1. exact Hl.
+Qed.
+
+Lemma do_eviction_lookup cfg p : Inv p -> lookup_sub (do_eviction cfg p) p.
+Proof.
+  intros HI h x Hl. destruct (Inv_do_eviction cfg p HI) as ((HBq & _ & HLq) & Hsub).
+  assert (hash x = h) by (apply HBq; exact Hl). subst h.
+  apply HLq in Hl. apply Hsub in Hl. destruct HI as (_ & _ & HL). apply HL. exact Hl.
+Qed.
+
+(** the invariant together with: every pooled transaction is one the history added *)
+Definition Inv2 (adds : list tx) (p : pool) : Prop :=
+  Inv p /\ forall h x, alookup (byHash p) h = Some x -> In x adds.
+
+Lemma added_txs_app a b : added_txs (a ++ b) = added_txs a ++ added_txs b.
+Proof. induction a as [|o a IH]; simpl; [reflexivity|]. destruct o; simpl; rewrite IH; reflexivity. Qed.
+
+Lemma run_pool_snoc cfg ops o : run_pool cfg (ops ++ [o]) = pstep cfg (run_pool cfg ops) o.
+Proof. unfold run_pool. rewrite fold_left_app. reflexivity. Qed.
+
+Lemma hist_ok_prefix a b : hist_ok (a ++ b) -> hist_ok a.
+Proof.
+  intros (H1 & H2). split.
+  - intros t t' Ht Ht'. apply H1; rewrite added_txs_app; apply in_or_app; left; assumption.
+  - intros t Ht. apply H2. rewrite added_txs_app; apply in_or_app; left; assumption.
+Qed.
+
+Theorem run_pool_inv2 cfg ops : hist_ok ops -> Inv2 (added_txs ops) (run_pool cfg ops).
+Proof.
+  induction ops as [|o ops IH] using rev_ind; intros Hok.
+  - split; [exact Inv_empty|]. intros h x H. discriminate.
+  - specialize (IH (hist_ok_prefix _ _ Hok)). destruct IH as (HI & Hadds).
+    rewrite run_pool_snoc, added_txs_app. destruct o as [t|h| |sess g m]; simpl.
+    + assert (Hag : agrees (run_pool cfg ops) t).
+      { intros t' Ht'. destruct Hok as (Hinj & _). apply Hinj.
+        - rewrite added_txs_app. apply in_or_app. left. eapply Hadds. exact Ht'.
+        - rewrite added_txs_app. apply in_or_app. right. left. reflexivity.
+        - destruct HI as ((_ & Hh & _) & _). apply Hh. exact Ht'. }
+      assert (Hwf : tx_wf t).
+      { destruct Hok as (_ & Hwf). apply Hwf. rewrite added_txs_app. apply in_or_app. right. left. reflexivity. }
+      split; [apply Inv_add_tx; assumption|].
+      intros h x Hl. apply in_or_app. unfold add_tx in Hl.
+      assert (Hbase : forall q, Inv q -> lookup_sub q (run_pool cfg ops) -> alookup (byHash (fst (add_core cfg q t))) h = Some x ->
+                      In x (added_txs ops) \/ In x [t]).
+      { intros q HIq Hs Hlq. apply add_core_lookup in Hlq; [|apply HIq]. destruct Hlq as [->|Hlq]; [right; left; reflexivity|].
+        left. eapply Hadds. apply Hs. exact Hlq. }
+      destruct (evictionEnabled cfg).
+      * apply (Hbase (do_eviction cfg (run_pool cfg ops))); [apply Inv_do_eviction; exact HI|apply do_eviction_lookup; exact HI|exact Hl].
+      * apply (Hbase (run_pool cfg ops)); [exact HI|intros h0 x0 H0; exact H0|exact Hl].
+    + rewrite app_nil_r. split; [apply Inv_remove_tx; exact HI|].
+      intros h0 x Hl. apply remove_tx_lookup in Hl; [|apply HI]. eapply Hadds. exact Hl.
+    + rewrite app_nil_r. split; [exact Inv_empty|]. intros h0 x H. discriminate.
+    + rewrite app_nil_r. split; assumption.
+Qed.
+
+Theorem run_pool_inv cfg ops : hist_ok ops -> Inv (run_pool cfg ops).
+Proof. intros H. apply (run_pool_inv2 cfg ops H). Qed.
